@@ -5,7 +5,7 @@ THEOREMS = ["C04_checked", "C04_checked_case", "C04_checked_run_ok'", "C04_check
 
 
 def run(ctx):
-    common.app_check(ctx, "C04", "theories/Props/C04.v", THEOREMS, codes=[11, 1], pred="P_C04", effect_codes=(22, 23),
+    common.app_check(ctx, "C04", "theories/Props/C04.v", THEOREMS, codes=[11, 1], pred="P_C04", effect_codes=(22, 23), profile="corpus noise judge",
                      extra_assume=["nonces stay below 2^64-1 (hypothesis of C04_holds; Example nonce_wraps shows the wrap otherwise)",
                                    "on the EVM path the nonce step is the observed effect's (go-ethereum bumps the sender's nonce); stated as hypothesis evm_effect_nonce_ok"],
                      nontrivial_rule="non-trivial = history with validator updates; replays, duplicated and out-of-order nonces are part of the invalid stream (see distribution: replay, bad-nonce-high, bad-nonce-low)")
